@@ -18,6 +18,17 @@ from concurrent.futures import ThreadPoolExecutor
 from engine import tlc
 
 SPEC = "OrmQuery"
+# every constant of OrmQuery.tla with a neutral value; plans override what they vary
+BASE = dict(NP=3, NC=3, NG=2, MaxV=2, K=1, NQ=1, Roots='{"P", "C"}', GridSel='"all"', GridKeep=100, NH=4, Mixed=False)
+
+
+def scale():
+    """development aid only (never set by ./check users): VERIF_OQ_SCALE=0.1 shrinks the number of generated cases"""
+    try:
+        return float(os.environ.get("VERIF_OQ_SCALE", "1"))
+    except ValueError:
+        return 1.0
+
 STRATS = ["lazy", "joined", "subquery", "selectin", "immediate"]
 LAZYARG = {"lazy": "select", "joined": "joined", "subquery": "subquery", "selectin": "selectin", "immediate": "immediate"}
 
